@@ -340,17 +340,18 @@ Proof.
   rewrite Forall_forall in *. intros e He. apply H2. eapply firstn_in; eauto.
 Qed.
 
-Lemma cycle_events_in s c e : In e (cycle_events s c) ->
+Lemma cycle_events_in s ex c e : In e (cycle_events s ex c) ->
   e_obj e = OHb /\ e_init e = s /\
   (cyc_ok c -> s <= e_val e /\ e_val e <= e_at e /\ e_at e <= s + c_open c + c_write c + c_chtimes c).
 Proof.
-  unfold cycle_events, cyc_ok. intros [<-|[<-|[<-|[]]]]; simpl; repeat split; lia.
+  unfold cycle_events, cyc_ok, ev_create, ev_write, ev_stamp.
+  destruct (c_fault c), ex; simpl; intros H; repeat (destruct H as [<-|H]; [simpl; repeat split; lia|]); destruct H.
 Qed.
 
-Lemma cycles_events_in : forall cs s p e, ms <= p -> Forall cyc_ok cs -> In e (cycles_events s cs p) ->
+Lemma cycles_events_in : forall cs s ex p e, ms <= p -> Forall cyc_ok cs -> In e (cycles_events s ex cs p) ->
   e_obj e = OHb /\ s <= e_init e /\ e_init e <= e_val e /\ e_val e <= e_at e.
 Proof.
-  induction cs as [|c r IH]; intros s p e Hp Hok He; [destruct He|]. cbn [cycles_events] in He.
+  induction cs as [|c r IH]; intros s ex p e Hp Hok He; [destruct He|]. cbn [cycles_events] in He.
   apply Forall_cons_iff in Hok. destruct Hok as [Hc Hr].
   apply in_app_or in He. destruct He as [He|He].
   - apply cycle_events_in in He. destruct He as [Ho [Hi Hv]]. specialize (Hv Hc). repeat split; try lia; assumption.
@@ -358,13 +359,14 @@ Proof.
     unfold next_start, cyc_total in Hs. destruct Hc as (?&?&?&?). lia.
 Qed.
 
-Lemma cycles_init_sorted : forall cs s p, ms <= p -> Forall cyc_ok cs ->
-  StronglySorted init_le (cycles_events s cs p).
+Lemma cycles_init_sorted : forall cs s ex p, ms <= p -> Forall cyc_ok cs ->
+  StronglySorted init_le (cycles_events s ex cs p).
 Proof.
-  induction cs as [|c r IH]; intros s p Hp Hok; [constructor|]. cbn [cycles_events].
+  induction cs as [|c r IH]; intros s ex p Hp Hok; [constructor|]. cbn [cycles_events].
   pose proof Hok as Hok'. apply Forall_cons_iff in Hok. destruct Hok as [Hc Hr].
   apply ss_app.
-  - unfold cycle_events. repeat constructor; unfold init_le; simpl; lia.
+  - unfold cycle_events, ev_create, ev_write, ev_stamp.
+    destruct (c_fault c), ex; repeat constructor; unfold init_le; simpl; lia.
   - apply IH; assumption.
   - intros a b Ha Hb. apply cycle_events_in in Ha. destruct Ha as [_ [Hi _]].
     apply cycles_events_in in Hb; try assumption. destruct Hb as [_ [Hs _]].
@@ -415,28 +417,32 @@ Qed.
 
 Definition head_open (cs : list cyc_lat) : Z := match cs with c :: _ => c_open c | [] => 0 end.
 
-(* from one `now` to the moment the NEXT iteration's file creation lands: at most period + 1ms - eps of latency *)
+(* no operation of the iteration fails, and from one `now` to the moment the NEXT iteration's file creation lands
+   there is at most period + 1ms - eps of latency *)
 Fixpoint cycles_bound (eps p : Z) (cs : list cyc_lat) : Prop :=
   match cs with
   | [] => True
-  | c :: r => cyc_total c + head_open r + eps <= p + ms /\ cycles_bound eps p r
+  | c :: r => c_fault c = FNone /\ cyc_total c + head_open r + eps <= p + ms /\ cycles_bound eps p r
   end.
 
 Definition acquire_bound (eps p : Z) (a : acq_lat) (cs : list cyc_lat) : Prop :=
   a_now a + a_chtimes a + a_spawn a + head_open cs + eps <= 2 * p.
 
-Lemma chain_cycles eps p : ms <= p -> 0 <= eps -> forall cs s,
-  Forall cyc_ok cs -> cycles_bound eps p cs -> chain eps p (cycles_events s cs p).
+Lemma chain_cycles eps p : ms <= p -> 0 <= eps -> forall cs s ex,
+  Forall cyc_ok cs -> cycles_bound eps p cs -> chain eps p (cycles_events s ex cs p).
 Proof.
-  intros Hp He. induction cs as [|c r IH]; intros s Hok Hb; [exact I|].
-  apply Forall_cons_iff in Hok. destruct Hok as [(C1 & C2 & C3 & C4) Hr]. destruct Hb as [Hb Hbr].
-  specialize (IH (next_start s c p) Hr Hbr).
+  intros Hp He. induction cs as [|c r IH]; intros s ex Hok Hb; [exact I|].
+  apply Forall_cons_iff in Hok. destruct Hok as [(C1 & C2 & C3 & C4) Hr]. destruct Hb as [Hf [Hb Hbr]].
+  specialize (IH (next_start s c p) (ex || opened c) Hr Hbr).
   assert (H0 : 0 <= head_open r).
   { destruct r; simpl; [lia|]. apply Forall_cons_iff in Hr. destruct Hr as [(?&_) _]. assumption. }
-  cbn [cycles_events cycle_events app chain e_at e_init]. unfold cyc_total in Hb.
+  cbn [cycles_events]. unfold cycle_events at 1. rewrite Hf. unfold ev_create, ev_write, ev_stamp.
+  cbn [app chain e_at e_init]. unfold cyc_total in Hb.
   split; [lia|]. split; [lia|].
-  destruct r as [|c' r']; [exact I|].
-  cbn [cycles_events cycle_events app e_at] in *. cbn [head_open] in Hb. split; [|exact IH].
+  destruct r as [|c' r']; [exact I|]. destruct Hbr as [Hf' _].
+  cbn [cycles_events] in IH |- *. unfold cycle_events in IH |- *. rewrite Hf' in IH |- *.
+  unfold ev_create, ev_write, ev_stamp in IH |- *.
+  cbn [app e_at] in IH |- *. cbn [head_open] in Hb. split; [|exact IH].
   unfold next_start, cyc_total. lia.
 Qed.
 
@@ -444,12 +450,14 @@ Lemma chain_holder eps p t0 a cs : ms <= p -> 0 <= eps -> acq_ok a -> Forall cyc
   acquire_bound eps p a cs -> cycles_bound eps p cs -> chain eps p (holder_trace t0 a cs p).
 Proof.
   intros Hp He (A1 & A2 & A3) Hok Ha Hb. unfold holder_trace, acquire_events, acquire_bound in *.
-  pose proof (chain_cycles eps p Hp He cs (first_start t0 a) Hok Hb) as Hc.
+  pose proof (chain_cycles eps p Hp He cs (first_start t0 a) false Hok Hb) as Hc.
   assert (H0 : 0 <= head_open cs).
   { destruct cs; simpl; [lia|]. apply Forall_cons_iff in Hok. destruct Hok as [(?&_) _]. assumption. }
   cbn [app chain e_at e_init]. split; [lia|].
-  destruct cs as [|c r]; [exact I|].
-  cbn [cycles_events cycle_events app e_at] in *. cbn [head_open] in Ha. split; [|exact Hc].
+  destruct cs as [|c r]; [exact I|]. destruct Hb as [Hf _].
+  cbn [cycles_events] in Hc |- *. unfold cycle_events in Hc |- *. rewrite Hf in Hc |- *.
+  unfold ev_create, ev_write, ev_stamp in Hc |- *.
+  cbn [app e_at] in Hc |- *. cbn [head_open] in Ha. split; [|exact Hc].
   unfold first_start. lia.
 Qed.
 
@@ -492,7 +500,7 @@ Qed.
 Lemma holder_trace_cons t0 a cs p :
   holder_trace t0 a cs p =
   mkEv t0 ODir t0 t0 :: (mkEv (t0 + a_now a + a_chtimes a) ODir (t0 + a_now a) (t0 + a_now a)
-                          :: cycles_events (first_start t0 a) cs p).
+                          :: cycles_events (first_start t0 a) false cs p).
 Proof. reflexivity. Qed.
 
 Lemma holder_stale_only_if_silent t0 a cs pms k t1 t2 t3 :
@@ -586,7 +594,7 @@ Qed.
 
 (* D30: without the latency bound the live lock IS reported stale — one heartbeat iteration oversleeps by 60 ms *)
 Definition d30_acq := mkAcq 0 0 0.
-Definition d30_cycles := [mkCyc 0 0 0 (60 * ms); mkCyc 0 0 0 0].
+Definition d30_cycles := [mkCyc 0 0 0 (60 * ms) FNone; mkCyc 0 0 0 0 FNone].
 
 Lemma live_stale_witness :
   let tr := holder_trace 0 d30_acq d30_cycles (50 * ms) in
@@ -623,4 +631,93 @@ Proof.
     rewrite Forall_map in H. eapply Forall_impl; [|exact H].
     intros s Hs. simpl in Hs. destruct s as [m|]; [|discriminate].
     exists m. split; [reflexivity|]. apply stale_time_iff in Hs; assumption.
+Qed.
+
+(* ------------------------------------------------------------------------------------------------ *)
+(* transient faults: the loop goes on, and once the faults are over the lock is live again             *)
+
+Fixpoint ex_after (ex : bool) (cs : list cyc_lat) : bool :=
+  match cs with [] => ex | c :: r => ex_after (ex || opened c) r end.
+
+Lemma cycles_events_app : forall cs1 cs2 s ex p,
+  cycles_events s ex (cs1 ++ cs2) p =
+  cycles_events s ex cs1 p ++ cycles_events (end_start s cs1 p) (ex_after ex cs1) cs2 p.
+Proof.
+  induction cs1 as [|c r IH]; intros cs2 s ex p; [reflexivity|].
+  cbn [app cycles_events end_start ex_after]. rewrite IH. now rewrite app_assoc.
+Qed.
+
+Lemma last_at_app pre x r d : last_at (pre ++ x :: r) d = last_at r (e_at x).
+Proof. revert d. induction pre as [|y pre IH]; intros d; simpl; [reflexivity|apply IH]. Qed.
+
+Lemma live_suffix_l evs pre x r eps pms t1 t2 t3 :
+  evs = pre ++ x :: r -> wf evs -> chain eps (pms * ms) (x :: r) -> 0 <= pms ->
+  e_at x <= t1 -> t1 < last_at r (e_at x) -> t1 <= t2 -> t3 <= t1 + eps ->
+  is_stale_na evs t1 t2 t3 (pms * ms) = false.
+Proof.
+  intros E Hwf Hc Hp Hx Hl H12 H3. rewrite is_stale_na_consulted.
+  destruct (consulted evs t1 t2) as [m|] eqn:Ec; [|reflexivity].
+  destruct (live_witness eps (pms * ms) r x t1 Hc Hx Hl) as [a [Ha [Hat Hfresh]]].
+  assert (Ha' : In a evs) by (subst evs; apply in_or_app; right; exact Ha).
+  pose proof (seen_dominates _ t1 t2 m Hwf H12 Ec a Ha' Hat).
+  apply stale_time_false_iff; [assumption|]. pose proof ms_pos. lia.
+Qed.
+
+(* cs1: ANY iterations (any faults, any latencies); then fault-free iterations c2 :: cs2 within the latency bound:
+   from the moment c2's file creation lands, the lock is live again *)
+Lemma holder_live_again t0 a cs1 c2 cs2 pms eps t1 t2 t3 :
+  1 <= pms -> 0 <= eps -> acq_ok a -> Forall cyc_ok cs1 -> Forall cyc_ok (c2 :: cs2) ->
+  cycles_bound eps (pms * ms) (c2 :: cs2) ->
+  let tr := holder_trace t0 a (cs1 ++ c2 :: cs2) (pms * ms) in
+  end_start (first_start t0 a) cs1 (pms * ms) + c_open c2 <= t1 -> t1 < last_at tr t0 ->
+  t1 <= t2 -> t3 <= t1 + eps ->
+  is_stale_na tr t1 t2 t3 (pms * ms) = false.
+Proof.
+  intros Hp He Ha Hc1 Hc2 Hb tr Hx Hl H12 H3.
+  assert (Hms : ms <= pms * ms) by (pose proof ms_pos; nia).
+  set (s1 := end_start (first_start t0 a) cs1 (pms * ms)) in *.
+  set (ex1 := ex_after false cs1).
+  pose proof (chain_cycles eps (pms * ms) Hms He (c2 :: cs2) s1 ex1 Hc2 Hb) as Hch.
+  assert (Hf : c_fault c2 = FNone) by (destruct Hb as [Hf _]; exact Hf).
+  assert (E : tr = (acquire_events t0 a ++ cycles_events (first_start t0 a) false cs1 (pms * ms))
+                   ++ ev_create s1 c2 :: (ev_write s1 c2 :: ev_stamp s1 c2
+                        :: cycles_events (next_start s1 c2 (pms * ms)) (ex1 || opened c2) cs2 (pms * ms))).
+  { unfold tr, holder_trace. rewrite cycles_events_app. fold s1. fold ex1.
+    cbn [cycles_events]. unfold cycle_events. rewrite Hf. rewrite <- app_assoc. reflexivity. }
+  cbn [cycles_events] in Hch. unfold cycle_events in Hch. rewrite Hf in Hch. cbn [app] in Hch.
+  eapply live_suffix_l with (eps := eps); try exact E; try eassumption; try lia.
+  - unfold tr. apply holder_trace_wf; try assumption. apply Forall_app. split; assumption.
+  - rewrite E in Hl. rewrite last_at_app in Hl. exact Hl.
+Qed.
+
+(* death by cancellation of the context (no Unlock): the loop ends, the trace is that of the iterations made *)
+Lemma holder_cancelled_becomes_stale t0 a cs pms td t1 t2 t3 :
+  1 <= pms -> acq_ok a -> Forall cyc_ok cs ->
+  let evs := holder_trace t0 a cs (pms * ms) in
+  (forall e, In e evs -> e_at e <= td) ->
+  td <= t1 -> t1 <= t2 -> td + (2 * pms + 1) * ms <= t3 ->
+  is_stale_na evs t1 t2 t3 (pms * ms) = true.
+Proof.
+  intros Hp Ha Hc evs Hd H1 H2 H3.
+  pose proof (holder_dead_becomes_stale t0 a cs pms (length (holder_trace t0 a cs (pms * ms))) td t1 t2 t3 Hp Ha Hc) as H.
+  unfold dead_after in H. rewrite firstn_all in H. apply H; try assumption.
+  rewrite holder_trace_cons. simpl. lia.
+Qed.
+
+Lemma holder_cancelled_recovers t0 a cs pms td t :
+  1 <= pms -> acq_ok a -> Forall cyc_ok cs ->
+  let evs := holder_trace t0 a cs (pms * ms) in
+  (forall e, In e evs -> e_at e <= td) ->
+  td + (2 * pms + 1) * ms <= t ->
+  let st := state_at evs t in
+  run_op OpIsStale st t (pms * ms) = (st, OStale true) /\
+  run_op OpRelease st t (pms * ms) = (no_lock, OReleased) /\
+  (forall o t', run_op (OpTryLock o) no_lock t' (pms * ms) = (fresh_lock t', OAcquired)) /\
+  run_op (OpTryLock false) st t (pms * ms) = (st, OStaleLock) /\
+  run_op (OpTryLock true) st t (pms * ms) = (fresh_lock t, OAcquired).
+Proof.
+  intros Hp Ha Hc evs Hd Ht.
+  pose proof (holder_dead_recovers t0 a cs pms (length (holder_trace t0 a cs (pms * ms))) td t Hp Ha Hc) as H.
+  unfold dead_after in H. rewrite firstn_all in H. apply H; try assumption.
+  rewrite holder_trace_cons. simpl. lia.
 Qed.
